@@ -204,6 +204,10 @@ func genProg(t *rapid.T, depth int, wantInt bool) *ref.Node {
 		}
 		return paren(&ref.Node{Kind: "cond", Kids: []*ref.Node{cond, sub(wantInt), sub(wantInt)}})
 	case 8: // integer +
+		if rapid.Bool().Draw(t, "localleft") {
+			// a local as the LEFT operand: reading it in arithmetic must not change it
+			return paren(bin("+", idn(rapid.SampledFrom(locals).Draw(t, "ll")), num(rapid.IntRange(0, 9).Draw(t, "lr"))))
+		}
 		return paren(bin("+", num(rapid.IntRange(0, 9).Draw(t, "l")), paren(bin("=", idn(rapid.SampledFrom(locals).Draw(t, "t2")), num(rapid.IntRange(0, 9).Draw(t, "r"))))))
 	case 9: // forbidden targets
 		var tgt *ref.Node
